@@ -84,6 +84,9 @@ func (c17Things) FindBySearch(ctx *restli.RequestContext, p *things.FindBySearch
 func (c17Things) FindByWithMeta(ctx *restli.RequestContext, p *things.FindByWithMetaParams) (*things.FindByWithMetaElements, error) {
 	return &things.FindByWithMetaElements{}, nil
 }
+func (c17Things) FindByCrit(ctx *restli.RequestContext, p *things.FindByCritParams) (*things.Elements, error) {
+	return &things.Elements{}, nil
+}
 func (c17Things) PingAction(ctx *restli.RequestContext, p *things.PingActionParams) (string, error) {
 	return "pong-" + p.Msg, nil
 }
